@@ -124,7 +124,7 @@ def dispatch(loader):
     return out
 
 
-TASKS = [StructTask("constructors", constructors), StructTask("attr_dict-save-load", attr_dict_and_load), StructTask("reader-dispatch", dispatch)]
+TASKS = [StructTask("constructors", constructors), StructTask("attr_dict-save-load", attr_dict_and_load, textual=True), StructTask("reader-dispatch", dispatch)]
 
 META = dict(
     level="other",
